@@ -1226,6 +1226,13 @@ func runScriptModel(r *hx.Result, cfg hx.Config, rng *rand.Rand) {
 		seq, seqLen, conc = 12, 150, 40
 	}
 	runPoolModel(r, cfg, rng, drv)
+	kills := 1
+	if cfg.Tier == "thorough" || cfg.Search {
+		kills = 6
+	}
+	for k := 0; k < kills; k++ {
+		runKillAtReply(r, cfg, drv, k)
+	}
 	for h := 0; h < seq; h++ {
 		runSequential(r, cfg, rng, drv, h, seqLen)
 	}
